@@ -108,7 +108,7 @@ def run_adx(ctx, P):
 
 
 META = dict(
-    bounds=dict(quick="smallest legal periods (2,3; MACD 2/3/2 and swapped 3/2/3; STOCH 2/3/2 and 3/2/1 (slow != smoothing)), n = warm-up+2..4 candles (ADX, Aroon warm-up+2)",
+    bounds=dict(quick="smallest legal periods (2,3; MACD 2/3/2 and swapped 3/2/3; STOCH 2/3/2 and 3/2/1 (slow != smoothing)), n = warm-up+2..4 candles (ADX, Aroon warm-up+2); MACD, ROC, OBV, STOCH, RSI, TSI also over the T2 buckets of a stream fed one raw candle per append (6-10 candles)",
                 thorough="adds TSI 3, STOCH 2/3/2, ADX 2/3; n = warm-up+3..6"),
     stubs=["float arithmetic -> exact real arithmetic (nonlinear: z3 nlsat on the fresh-solver tier)", "round(x, 10) -> identity", "max/min/abs -> If-terms"],
     assumptions=["denominators are assumed non-zero here (zero cases are C09's and return documented limit values)", "volume > 0 for VWAP", "deviation must exceed 1e-6*(1+|ref|) and reproduce on the real code"],
